@@ -811,9 +811,7 @@ theorem tbw_setLimit_tokenInflight {w w' : TBW} {loc : Schema} {mt : Meter} {r :
   | other =>
     simp only [he] at h
     split at h
-    · split at h
-      · cases h
-      · simp only [Except.ok.injEq, Prod.mk.injEq] at h; rw [← h.1]; rfl
+    · split at h <;> (simp only [Except.ok.injEq, Prod.mk.injEq] at h; rw [← h.1]; rfl)
     · simp only [Except.ok.injEq, Prod.mk.injEq] at h; rw [← h.1]
   | none =>
     simp only [he, Except.ok.injEq, Prod.mk.injEq] at h
@@ -1048,7 +1046,7 @@ structure FlInv (cfg : Cfg) (st : State) (m : Mon) : Prop where
   nodup : (st.handles.map (·.id)).Nodup
   gens : ∀ c, st.cache = some c → ∀ h ∈ st.handles, h.side = .rem → h.gen ≤ c.fl.remOuter ∧ h.inner ≤ c.fl.remInner
   nocache : st.cache = none → ∀ h ∈ st.handles, h.side = .dflt
-  cur : m.tainted = false → ∀ c, st.cache = some c →
+  cur : ∀ c, st.cache = some c →
     c.fl.remCount = (st.handles.countP (flagOf c) : Int) ∧
     ∀ h ∈ st.handles, h.side = .rem → h.gen = c.fl.remOuter → c.remote.isSome = true → h.inner = c.fl.remInner
 
@@ -1056,7 +1054,7 @@ structure FlInv (cfg : Cfg) (st : State) (m : Mon) : Prop where
 theorem flInv_frame {cfg : Cfg} {st st' : State} {m m' : Mon} (h : FlInv cfg st m) (hc : st'.cache = st.cache)
     (hh : st'.handles = st.handles) (hv : st'.cfgv = st.cfgv)
     (e1 : m'.applied = m.applied) (e2 : m'.owed = m.owed) (e3 : m'.mustEvent = m.mustEvent)
-    (e4 : m'.held = m.held) (e5 : m'.tainted = m.tainted) : FlInv cfg st' m' := by
+    (e4 : m'.held = m.held) : FlInv cfg st' m' := by
   have hg : gfcOf st' = gfcOf st := by simp only [gfcOf, hc]
   refine ⟨by rw [hv]; exact h.cfgv, ?_, ?_, ?_, by rw [e4, hc, hh]; exact h.held, by rw [hh]; exact h.nodup, ?_, ?_, ?_⟩
   · intro c r a b; rw [e1]; exact h.applied c r (by rw [← hc]; exact a) b
@@ -1064,7 +1062,7 @@ theorem flInv_frame {cfg : Cfg} {st st' : State} {m m' : Mon} (h : FlInv cfg st 
   · intro a; rw [e3] at a; rw [hc, hg]; exact h.must a
   · intro c a; rw [hh]; exact h.gens c (by rw [← hc]; exact a)
   · intro a; rw [hh]; exact h.nocache (by rw [← hc]; exact a)
-  · intro a c b; rw [hh]; exact h.cur (by rw [← e5]; exact a) c (by rw [← hc]; exact b)
+  · intro c b; rw [hh]; exact h.cur c (by rw [← hc]; exact b)
 
 structure Inv (K : Kind) (cfg : Cfg) (st : State) (m : Mon) : Prop where
   meter : m.meter = st.meter
@@ -1084,7 +1082,7 @@ theorem inv_init (K : Kind) (cfg : Cfg) : Inv K cfg (initState cfg) {} := by
   refine ⟨rfl, (by simp [initState] : (0:Int) < _), rfl, rfl, ?_, ?_, BLe.refl _, fun _ => rfl, rfl, rfl,
     ⟨rfl, Int.le_refl _, fun c hc => (by cases hc), fun c hc _ => (by cases hc)⟩,
     ⟨rfl, fun c r hc => (by cases hc), fun w hw => (by simp [gfcOf, initState] at hw), fun h => (by cases h), rfl,
-      List.nodup_nil, fun c hc => (by cases hc), fun _ h hh => (by cases hh), fun _ c hc => (by cases hc)⟩⟩
+      List.nodup_nil, fun c hc => (by cases hc), fun _ h hh => (by cases hh), fun c hc => (by cases hc)⟩⟩
   · cases cfg with | mk rl cs => cases rl <;> rfl
   · constructor <;> simp [maxInt32] <;> decide
 
@@ -1280,7 +1278,7 @@ theorem step_shards {K : Kind} {cfg : Cfg} {st : State} {m : Mon} (hi : Inv K cf
   · simp [Mon.next, leaderChange]; exact hi.hb
   · simp [Mon.next, leaderChange]; exact hi.leader
   · exact cntInv_frame hi.cnt rfl (by first | (simp [Mon.next]; done) | (simp [Mon.next]; exact hi.cnt.clock)) (by simp [Mon.next, effective]) (by simp [Mon.next])
-  · exact flInv_frame hi.fl rfl rfl rfl (by simp [Mon.next, effective]) (by simp [Mon.next, rebuilds, effective, stopsRemote]) (by simp [Mon.next, rebuilds, effective, stopsRemote]) (by simp [Mon.next, rebuilds, effective, stopsRemote]) (by simp [Mon.next, rebuilds, effective, stopsRemote])
+  · exact flInv_frame hi.fl rfl rfl rfl (by simp [Mon.next, effective]) (by simp [Mon.next, rebuilds, newBucket, effective, stopsRemote]) (by simp [Mon.next, rebuilds, newBucket, effective, stopsRemote]) (by simp [Mon.next, rebuilds, newBucket, effective, stopsRemote])
 
 theorem step_meter {K : Kind} {cfg : Cfg} {st : State} {m : Mon} (hi : Inv K cfg st m) (x : Meter)
     (hx : 0 < x.rateDen) : StepOK K cfg st m (.meter x) := by
@@ -1298,7 +1296,7 @@ theorem step_meter {K : Kind} {cfg : Cfg} {st : State} {m : Mon} (hi : Inv K cfg
   · simp [Mon.next, leaderChange]; exact hi.hb
   · simp [Mon.next, leaderChange]; exact hi.leader
   · exact cntInv_frame hi.cnt rfl (by first | (simp [Mon.next]; done) | (simp [Mon.next]; exact hi.cnt.clock)) (by simp [Mon.next, effective]) (by simp [Mon.next])
-  · exact flInv_frame hi.fl rfl rfl rfl (by simp [Mon.next, effective]) (by simp [Mon.next, rebuilds, effective, stopsRemote]) (by simp [Mon.next, rebuilds, effective, stopsRemote]) (by simp [Mon.next, rebuilds, effective, stopsRemote]) (by simp [Mon.next, rebuilds, effective, stopsRemote])
+  · exact flInv_frame hi.fl rfl rfl rfl (by simp [Mon.next, effective]) (by simp [Mon.next, rebuilds, newBucket, effective, stopsRemote]) (by simp [Mon.next, rebuilds, newBucket, effective, stopsRemote]) (by simp [Mon.next, rebuilds, newBucket, effective, stopsRemote])
 
 theorem step_hb {K : Kind} {cfg : Cfg} {st : State} {m : Mon} (hi : Inv K cfg st m) (ok : Bool) (now : Int)
     (other : Bool) : StepOK K cfg st m (.hb ok now other) := by
@@ -1318,7 +1316,7 @@ theorem step_hb {K : Kind} {cfg : Cfg} {st : State} {m : Mon} (hi : Inv K cfg st
     · simp [Mon.next, leaderChange]; exact hi.hb
     · simp [Mon.next, leaderChange]; exact hi.leader
     · exact cntInv_frame hi.cnt rfl (by first | (simp [Mon.next]; done) | (simp [Mon.next]; exact hi.cnt.clock)) (by simp [Mon.next, effective]) (by simp [Mon.next])
-    · exact flInv_frame hi.fl rfl rfl rfl (by simp [Mon.next, effective]) (by simp [Mon.next, rebuilds, effective, stopsRemote]) (by simp [Mon.next, rebuilds, effective, stopsRemote]) (by simp [Mon.next, rebuilds, effective, stopsRemote]) (by simp [Mon.next, rebuilds, effective, stopsRemote])
+    · exact flInv_frame hi.fl rfl rfl rfl (by simp [Mon.next, effective]) (by simp [Mon.next, rebuilds, newBucket, effective, stopsRemote]) (by simp [Mon.next, rebuilds, newBucket, effective, stopsRemote]) (by simp [Mon.next, rebuilds, newBucket, effective, stopsRemote])
   | false =>
     refine ⟨{ st with hb := some (hbStep (st.hb.getD {}) ok now), clock := now }, rfl, ?_, rfl⟩
     apply inv_of_frame hi (st' := { st with hb := some (hbStep (st.hb.getD {}) ok now), clock := now })
@@ -1334,7 +1332,7 @@ theorem step_hb {K : Kind} {cfg : Cfg} {st : State} {m : Mon} (hi : Inv K cfg st
     · simp [Mon.next]; exact hbStep_inv hi.hb ok now
     · simp [Mon.next, leaderChange]; exact hi.leader
     · exact cntInv_frame hi.cnt rfl (by first | (simp [Mon.next]; done) | (simp [Mon.next]; exact hi.cnt.clock)) (by simp [Mon.next, effective]) (by simp [Mon.next])
-    · exact flInv_frame hi.fl rfl rfl rfl (by simp [Mon.next, effective]) (by simp [Mon.next, rebuilds, effective, stopsRemote]) (by simp [Mon.next, rebuilds, effective, stopsRemote]) (by simp [Mon.next, rebuilds, effective, stopsRemote]) (by simp [Mon.next, rebuilds, effective, stopsRemote])
+    · exact flInv_frame hi.fl rfl rfl rfl (by simp [Mon.next, effective]) (by simp [Mon.next, rebuilds, newBucket, effective, stopsRemote]) (by simp [Mon.next, rebuilds, newBucket, effective, stopsRemote]) (by simp [Mon.next, rebuilds, newBucket, effective, stopsRemote])
 
 theorem observe_unavail_noremote {cfg : Cfg} {st : State} {c : Cache} (hc : st.cache = some c) (hr : c.remote = none) :
     (observe cfg st).unavail = false := by
@@ -1376,7 +1374,7 @@ theorem flInv_cache {cfg : Cfg} {st st' : State} {m m' : Mon} {c c' : Cache} (h 
     (happ : ∀ r, c'.remote = some r → m'.applied = r.appliedConfig)
     (howed : ∀ w, gfcOf st' = some (.tbw w) → w.tokenInflight = m'.owed)
     (hmust : m'.mustEvent = true → ∃ g, gfcOf st' = some g ∧ GFC.wkind g ≠ 1 ∧ c'.cnt.event = true)
-    (e4 : m'.held = m.held) (e5 : m'.tainted = m.tainted) : FlInv cfg st' m' := by
+    (e4 : m'.held = m.held) : FlInv cfg st' m' := by
   refine ⟨by rw [hv]; exact h.cfgv, ?_, howed, ?_, ?_, by rw [hh]; exact h.nodup, ?_, ?_, ?_⟩
   · intro x r a b
     have : x = c' := by rw [hc'] at a; exact (Option.some.inj a).symm
@@ -1389,10 +1387,10 @@ theorem flInv_cache {cfg : Cfg} {st st' : State} {m m' : Mon} {c c' : Cache} (h 
     have : x = c' := by rw [hc'] at a; exact (Option.some.inj a).symm
     subst this; rw [hh, hfl]; exact h.gens c hc
   · intro a; rw [hc'] at a; cases a
-  · intro a x b
+  · intro x b
     have : x = c' := by rw [hc'] at b; exact (Option.some.inj b).symm
     subst this
-    obtain ⟨k1, k2⟩ := h.cur (by rw [← e5]; exact a) c hc
+    obtain ⟨k1, k2⟩ := h.cur c hc
     rw [hh, hfl, countP_flagOf_congr _ hfl hrs, hrs]
     exact ⟨k1, k2⟩
 
@@ -3076,7 +3074,7 @@ theorem flInv_push {cfg : Cfg} {st st' : State} {m m' : Mon} {c c' : Cache} {h :
     (hgen : h.side = .rem → h.gen = c.fl.remOuter ∧ h.inner = c.fl.remInner)
     (hev : c.cnt.event = true → c'.cnt.event = true)
     (e1 : m'.applied = m.applied) (e2 : m'.owed = m.owed) (e3 : m'.mustEvent = m.mustEvent)
-    (e4 : m'.held = (h.id, flagOf c h) :: m.held) (e5 : m'.tainted = m.tainted) : FlInv cfg st' m' := by
+    (e4 : m'.held = (h.id, flagOf c h) :: m.held) : FlInv cfg st' m' := by
   have hrs : c'.remote.isSome = c.remote.isSome := by rw [hrem]
   have hg : gfcOf st' = gfcOf st := by simp [gfcOf, hc, hc', hrem]
   refine ⟨by rw [hv]; exact hf.cfgv, ?_, ?_, ?_, ?_, ?_, ?_, ?_, ?_⟩
@@ -3107,10 +3105,10 @@ theorem flInv_push {cfg : Cfg} {st st' : State} {m m' : Mon} {c c' : Cache} {h :
       exact ⟨Nat.le_of_eq g1, Nat.le_of_eq g2⟩
     · exact hf.gens c hc h0 hm hs
   · intro a; rw [hc'] at a; cases a
-  · intro a x b
+  · intro x b
     have : x = c' := by rw [hc'] at b; exact (Option.some.inj b).symm
     subst this
-    obtain ⟨k1, k2⟩ := hf.cur (by rw [← e5]; exact a) c hc
+    obtain ⟨k1, k2⟩ := hf.cur c hc
     refine ⟨?_, ?_⟩
     · rw [hh, List.countP_cons, countP_flagOf_congr' _ ho hn hrs, flagOf_congr' h ho hn hrs, hcount, k1]
       cases flagOf c h <;> simp
@@ -3143,7 +3141,7 @@ theorem flInv_push_none {cfg : Cfg} {st st' : State} {m m' : Mon} {h : Handle} (
     rcases List.mem_cons.1 hm with e | hm
     · subst e; exact hside
     · exact hf.nocache hc h0 hm
-  · intro _ x b; rw [hc'] at b; cases b
+  · intro x b; rw [hc'] at b; cases b
 
 theorem load_none {cfg : Cfg} {st : State} (h : st.cache = none) : load cfg st = .dflt := by simp [load, h]
 
@@ -3354,10 +3352,10 @@ theorem flInv_pop {cfg : Cfg} {st st' : State} {m m' : Mon} {c c' : Cache} {h : 
     (hfind : st.handles.find? (·.id == id) = some h)
     (hh : st'.handles = st.handles.filter (fun x => !(x.id == id))) (hv : st'.cfgv = st.cfgv)
     (hrem : c'.remote = c.remote) (ho : c'.fl.remOuter = c.fl.remOuter) (hn : c'.fl.remInner = c.fl.remInner)
-    (hcount : m.tainted = false → c'.fl.remCount = c.fl.remCount - (if flagOf c h then 1 else 0))
+    (hcount : c'.fl.remCount = c.fl.remCount - (if flagOf c h then 1 else 0))
     (hev : c.cnt.event = true → c'.cnt.event = true)
     (e1 : m'.applied = m.applied) (e2 : m'.owed = m.owed) (e3 : m'.mustEvent = m.mustEvent)
-    (e4 : m'.held = m.held.filter (fun x => !(x.1 == id))) (e5 : m'.tainted = m.tainted) : FlInv cfg st' m' := by
+    (e4 : m'.held = m.held.filter (fun x => !(x.1 == id))) : FlInv cfg st' m' := by
   have hrs : c'.remote.isSome = c.remote.isSome := by rw [hrem]
   have hg : gfcOf st' = gfcOf st := by simp [gfcOf, hc, hc', hrem]
   have hsub : ∀ x, x ∈ st'.handles → x ∈ st.handles := by
@@ -3384,13 +3382,12 @@ theorem flInv_pop {cfg : Cfg} {st st' : State} {m m' : Mon} {c c' : Cache} {h : 
     intro h0 hm hs
     exact hf.gens c hc h0 (hsub h0 hm) hs
   · intro a; rw [hc'] at a; cases a
-  · intro a x b
+  · intro x b
     have : x = c' := by rw [hc'] at b; exact (Option.some.inj b).symm
     subst this
-    have ht : m.tainted = false := by rw [← e5]; exact a
-    obtain ⟨k1, k2⟩ := hf.cur ht c hc
+    obtain ⟨k1, k2⟩ := hf.cur c hc
     refine ⟨?_, ?_⟩
-    · rw [hh, countP_flagOf_congr' _ ho hn hrs, countP_filter_id hf.nodup hfind, hcount ht, k1]
+    · rw [hh, countP_flagOf_congr' _ ho hn hrs, countP_filter_id hf.nodup hfind, hcount, k1]
     · rw [ho, hn, hrs]
       intro h0 hm hs hgn hsm
       exact k2 h0 (hsub h0 hm) hs hgn hsm
@@ -3416,7 +3413,7 @@ theorem flInv_pop_none {cfg : Cfg} {st st' : State} {m m' : Mon} {id : Nat}
   · intro _ h0 hm
     rw [hh] at hm
     exact hf.nocache hc h0 (List.mem_filter.1 hm).1
-  · intro _ x b; rw [hc'] at b; cases b
+  · intro x b; rw [hc'] at b; cases b
 
 theorem step_release {K : Kind} {cfg : Cfg} {st : State} {m : Mon} (hi : Inv K cfg st m) (id : Nat) :
     StepOK K cfg st m (.release id) := by
